@@ -22,8 +22,10 @@ import json, re, sys, os
 class Unsupported(Exception):
     pass
 
-def load_docs(fn):
+def load_docs(fn, prefix=''):
     s = open(fn).read(); dec = json.JSONDecoder(); i = 0; out = []
+    if prefix:
+        s = s.replace('"0x', '"' + prefix + '0x')   # AST node ids are only unique within one clang run
     n = len(s)
     while i < n:
         while i < n and s[i].isspace(): i += 1
@@ -165,6 +167,9 @@ class Translator:
         return t
 
     def _ctype(self, q, raw):
+        if q.endswith('*'):
+            e = self.ctype(q[:-1].strip())
+            return CType('ptr', e.c + ' *', raw=raw, elem=e)
         for pat, cls, c in self.cfg.get('type_rules', []):
             if re.search(pat, q):
                 return CType(cls, c, raw=raw)
@@ -235,6 +240,8 @@ class Translator:
                         self.owner_of[x['id']] = qname
 
     def emit_struct(self, qname):
+        if qname not in self.records:
+            return      # opaque record: its C definition comes from the unit's ghost_fields.h
         decl = self.records[qname]
         cn = self.cname_of_record(qname)
         if cn in self.struct_text: return
@@ -333,9 +340,11 @@ class Translator:
     def is_move_call(self, n):
         """n (after peeling) is std::move(x) / std::forward<T>(x) -> returns x node, else None"""
         c = self.skip(n)
+        while c.get('kind') == 'ImplicitCastExpr' and c.get('castKind') in ('DerivedToBase', 'UncheckedDerivedToBase'):
+            c = self.skip(c['inner'][0])
         if c.get('kind') == 'CallExpr':
             nm, _ = self.callee_name(c['inner'][0])
-            if nm in ('move', 'forward') and len(c['inner']) == 2:
+            if nm in ('move', 'forward') and len(c['inner']) == 2 and c.get('valueCategory') == 'xvalue':
                 return c['inner'][1]
         return None
 
@@ -377,6 +386,9 @@ class Translator:
         if ck in ('IntegralCast', 'IntegralToBoolean', 'BooleanToSignedIntegral'):
             t = self.ctype(self.qt(n))
             return f'(({t.c})({self.E(sub, cx)}))'
+        if ck == 'BitCast':
+            t = self.ctype(self.qt(n))
+            return f'(({t.c})({self.E(sub, cx)}))'
         if ck == 'NullToPointer':
             return 'NULL'
         if ck == 'PointerToBoolean':
@@ -385,6 +397,8 @@ class Translator:
 
     def E_CXXFunctionalCastExpr(self, n, cx):
         ck = n.get('castKind')
+        if ck == 'ToVoid': return '((void)0)'
+
         if ck in ('ConstructorConversion', 'NoOp'): return self.E(n['inner'][0], cx)
         if ck in ('IntegralCast',):
             t = self.ctype(self.qt(n)); return f'(({t.c})({self.E(n["inner"][0], cx)}))'
@@ -396,6 +410,39 @@ class Translator:
             t = self.ctype(self.qt(n)); return f'(({t.c})({self.E(n["inner"][0], cx)}))'
         raise Unsupported(f'static_cast {ck} in {cx.cname}')
     E_CStyleCastExpr = E_CXXStaticCastExpr
+
+    def E_InitListExpr(self, n, cx):
+        t = self.ctype(self.qt(n))
+        if t.cls != 'record' or t.c not in self.cfg.get('value_records', []):
+            raise Unsupported(f'initializer list for {t} in {cx.cname}')
+        q = self.record_q(t)
+        fields = [c for c in self.records[q].get('inner', []) if c.get('kind') == 'FieldDecl']
+        items = n.get('inner', [])
+        if len(items) != len(fields): raise Unsupported(f'initializer list arity for {t} in {cx.cname}')
+        # braced-init-list: elements are evaluated strictly left to right (sequenced): emitted as ordered temporaries
+        parts = []
+        for f, x in zip(fields, items):
+            ft = self.ctype(self.qt(f))
+            tmp = cx.tmp('init')
+            cx.pre.append(f'{ft.c} {tmp} = {self.E(x, cx)};')
+            parts.append(f'.{f["name"]} = {tmp}')
+        return f'({t.c}){{{", ".join(parts)}}}'
+
+    def E_CXXTemporaryObjectExpr(self, n, cx): return self.E_CXXConstructExpr(n, cx)
+    def E_CXXScalarValueInitExpr(self, n, cx): return '0'
+
+    def E_CXXReinterpretCastExpr(self, n, cx):
+        t = self.ctype(self.qt(n))
+        return f'(({t.c})({self.E(n["inner"][0], cx)}))'
+
+    def E_CXXNewExpr(self, n, cx):
+        if not n.get('isPlacement'): raise Unsupported(f'non-placement new in {cx.cname}')
+        kids = n.get('inner', [])
+        ctor = [k for k in kids if self.skip(k).get('kind') in ('CXXConstructExpr',)]
+        place = [k for k in kids if k not in ctor]
+        if len(ctor) != 1 or len(place) != 1: raise Unsupported(f'placement new shape in {cx.cname}')
+        t = self.ctype(self.qt(self.skip(ctor[0])))
+        return f'PLACEMENT_NEW({t.c}, {self.E(place[0], cx)}, {self.E(ctor[0], cx)})'
 
     def E_CXXBoolLiteralExpr(self, n, cx): return '1' if n['value'] else '0'
     def E_IntegerLiteral(self, n, cx):
@@ -451,7 +498,23 @@ class Translator:
         return e
 
     def E_UnaryOperator(self, n, cx):
-        op = n['opcode']; s = self.E(n['inner'][0], cx)
+        op = n['opcode']
+        if op == '&':
+            s0 = self.skip(n['inner'][0])
+            if s0.get('kind') == 'DeclRefExpr' and s0['referencedDecl'].get('kind') == 'FunctionDecl':
+                # address of a function template instantiation used as a type tag (commonDtor<T>)
+                ty = s0['referencedDecl'].get('type', {}).get('qualType', '')
+                targ = None
+                d = self.byid.get(s0['referencedDecl']['id'])
+                tas = [a.get('type', {}).get('qualType') for a in (d or {}).get('inner', []) if a.get('kind') == 'TemplateArgument'] if d else []
+                if tas:
+                    try: targ = self.ctype(tas[0]).c
+                    except Unsupported: targ = None
+                if targ is None:
+                    ft = self.ctype(self.qt(n))
+                    targ = self.cfg.get('fn_tag_default', 'T')
+                return f'FN_TAG({s0["referencedDecl"]["name"]}, {targ})'
+        s = self.E(n['inner'][0], cx)
         if n.get('isPostfix'): return f'({s}{op})'
         if op == '&': return f'(&{s})'
         return f'({op}{s})'
@@ -471,6 +534,10 @@ class Translator:
     E_CompoundAssignOperator = E_BinaryOperator
 
     def E_ConditionalOperator(self, n, cx):
+        fb = self.skip(n['inner'][2])
+        if fb.get('kind') == 'CallExpr' and self.callee_name(fb['inner'][0])[0] == '__assert_fail':
+            # assert(e): an obligation independent of NDEBUG
+            return f'SRC_ASSERT({self.E(n["inner"][0], cx)})'
         c, a, b = [self.E(x, cx) for x in n['inner']]
         return f'({c} ? {a} : {b})'
 
@@ -478,9 +545,11 @@ class Translator:
     def addr_of(self, n, cx, t=None):
         """C expression for a pointer to the object denoted by n (binding a C++ reference)"""
         mv = self.is_move_call(n)
-        if mv is not None:
-            return self.addr_of(mv, cx)
         s = self.skip(n)
+        if mv is not None:
+            if s.get('kind') == 'ImplicitCastExpr' and s.get('castKind') in ('DerivedToBase', 'UncheckedDerivedToBase'):
+                return f'&{self.E(n, cx)}'      # base subobject of the moved-from object
+            return self.addr_of(mv, cx)
         vc = s.get('valueCategory')
         e = self.E(n, cx)
         ty = self.ctype(self.qt(s))
@@ -500,6 +569,7 @@ class Translator:
         out = []
         for p, a in zip(params, args):
             pt = self.ctype(self.qt(p))
+            if pt.cls == 'empty': continue
             if a.get('kind') == 'CXXDefaultArgExpr':
                 raise Unsupported(f'default argument in call from {cx.cname}')
             if pt.ref:
@@ -525,7 +595,9 @@ class Translator:
         else:
             self.declare_extern(decl, cn, self_arg is not None)
         a += self.ghost_args()
-        return self.wrap_call(f'{cn}({", ".join(a)})', decl, cx)
+        text = f'{cn}({", ".join(a)})'
+        if self.ret_ctype(decl).ref: text = f'(*{text})'
+        return self.wrap_call(text, decl, cx)
 
     def wrap_call(self, text, decl, cx):
         return text
@@ -543,6 +615,7 @@ class Translator:
         if has_self:
             ps.append(f'{self.cname_of_record(oq) if oq else "void"} *self')
         for p in self.params_of(decl):
+            if self.ctype(self.qt(p)).cls == 'empty': continue
             ps.append(self.ctype(self.qt(p)).decl(p.get('name') or f'a{len(ps)}'))
         rt = self.ret_ctype(decl)
         ps += self.ghost_decls()
@@ -593,7 +666,11 @@ class Translator:
         cls = tcls.cls
         if cls == 'record':
             d = self.byid.get(callee.get('referencedMemberDecl'))
-            if d is None: raise Unsupported(f'callee {name} not in dump ({cx.cname})')
+            if d is None or not self.has_body(d):
+                d2 = self.resolve_method(tcls, name, len(args), self.qt(obj))
+                if d2 is not None: d = d2
+            if d is None:
+                return self.opaque_call(tcls, name, optr(), args, n, cx)
             return self.call_function(d, optr(), args, cx)
         if cls == 'wp':
             if name == 'lock': return f'weak_lock({optr()})'
@@ -613,7 +690,72 @@ class Translator:
             if name == 'unlock': return f'MUTEX_UNLOCK({optr()})'
         if cls in ('lambda', 'function') and name == 'operator()':
             return self.call_functor(tcls, optr(), args, n, cx)
+        if cls == 'list':
+            if name == 'empty': return f'WLIST_EMPTY({optr()})'
+            if name == 'begin': return f'WLIST_BEGIN({optr()})'
+            if name == 'end': return f'WLIST_END({optr()})'
+            if name == 'front': return f'(*WLIST_FRONT({optr()}))'
+            if name == 'emplace_back' and not args: return f'WLIST_EMPLACE_BACK({optr()})'
+            if name == 'splice' and len(args) == 2:
+                return f'WLIST_SPLICE_ALL({optr()}, {self.E(args[0], cx)}, {self.addr_of(args[1], cx)})'
+            if name == 'splice' and len(args) == 3:
+                return f'WLIST_SPLICE_ONE({optr()}, {self.E(args[0], cx)}, {self.addr_of(args[1], cx)}, {self.E(args[2], cx)})'
+        if cls == 'condvar':
+            if name == 'notify_one': return f'CONDVAR_NOTIFY_ONE({optr()})'
+            if name == 'notify_all': return f'CONDVAR_NOTIFY_ALL({optr()})'
+            if name in ('wait', 'wait_for'):
+                lam = self.skip(args[-1])
+                while lam.get('kind') == 'CXXConstructExpr' and len(lam.get('inner', [])) == 1:
+                    lam = self.skip(lam['inner'][0])
+                if lam.get('kind') != 'LambdaExpr': raise Unsupported(f'{name} without predicate lambda in {cx.cname}')
+                clos = self.E(lam, cx)
+                lt = self.ctype(self.qt(lam))
+                t = cx.tmp('pred')
+                cx.pre.append(f'{lt.c} {t} = {clos};')
+                lk = self.E(args[0], cx)
+                if name == 'wait': return f'CONDVAR_WAIT({optr()}, {lk}, {lt.c}_call, &{t})'
+                return f'CONDVAR_WAIT_FOR({optr()}, {lk}, {lt.c}_call, &{t})'
+        if cls == 'rawbuf' and name == 'data':
+            return optr()
         raise Unsupported(f'member call {name} on {tcls} ({tcls.raw}) in {cx.cname}')
+
+    def resolve_method(self, rec, name, nargs, objq):
+        """find a method definition of a registered record by name / arity / constness (references across AST dumps)"""
+        q = None
+        for qq, c in self.cnames.items():
+            if c == rec.c and qq in self.records: q = qq
+        if q is None: return None
+        cands = []
+        for c in self.records[q].get('inner', []):
+            ds = [c] if c.get('kind') in ('CXXMethodDecl',) else [x for x in c.get('inner', []) if x.get('kind') == 'CXXMethodDecl'] if c.get('kind') == 'FunctionTemplateDecl' else []
+            for d in ds:
+                if d.get('name') == name and self.has_body(d) and len(self.params_of(d)) == nargs: cands.append(d)
+        if len(cands) > 1:
+            want_const = ' const' in objq or objq.strip().startswith('const ')
+            cc = [d for d in cands if d['type']['qualType'].rstrip().endswith('const') == want_const]
+            if cc: cands = cc
+        return cands[0] if cands else None
+
+    def opaque_call(self, rec, name, optr, args, n, cx):
+        """member function of a record whose definition is outside the unit: environment stub.
+        prvalue arguments are passed by value, everything else by address"""
+        opn = {'operator=': 'assign', 'operator()': 'call'}.get(name, re.sub(r'\W+', '_', name))
+        if name == 'operator=' and args:
+            opn = 'assign_move' if self.is_move_call(args[0]) is not None else 'assign_copy'
+        cn = f'{rec.c}_{opn}'
+        a = [optr]; ps = [f'{rec.c} *self']
+        for i, x in enumerate(args):
+            sx = self.skip(x)
+            t = self.ctype(self.qt(sx))
+            if t.cls == 'empty': continue
+            if sx.get('valueCategory') == 'prvalue' and self.is_move_call(x) is None:
+                a.append(self.value_of(x, cx, t)); ps.append(f'{t.c} a{i}')
+            else:
+                a.append(self.addr_of(x, cx)); ps.append(f'{t.c} *a{i}')
+        rt = self.ctype(self.qt(n))
+        if cn not in self.externs:
+            self.externs[cn] = f'{rt.decl("").strip()} {cn}({", ".join(ps + self.ghost_decls())})'
+        return f'{cn}({", ".join(a + self.ghost_args())})'
 
     def call_functor(self, ft, optr, args, n, cx):
         """call through std::function / user functor / internal lambda"""
@@ -646,6 +788,13 @@ class Translator:
             if nm == 'operator*': return f'(*{self.E(a0, cx)})'
             if nm in ('operator==', 'operator!='):
                 return f'({self.E(a0, cx)} {nm[8:]} {self.E(args[1], cx)})'
+        if cls == 'listit':
+            if nm == 'operator!=': return f'WIT_NE({self.E(a0, cx)}, {self.E(args[1], cx)})'
+            if nm == 'operator==': return f'(!WIT_NE({self.E(a0, cx)}, {self.E(args[1], cx)}))'
+            if nm == 'operator++': return f'WIT_INC({self.addr_of(a0, cx)})'
+            if nm == 'operator->': return f'WIT_DEREF({self.E(a0, cx)})'
+            if nm == 'operator*': return f'(*WIT_DEREF({self.E(a0, cx)}))'
+            if nm == 'operator=': return f'({self.E(a0, cx)} = {self.E(args[1], cx)})'
         if cls == 'wp' and nm == 'operator=':
             return f'({self.E(a0, cx)} = {self.E(args[1], cx)})'
         if cls == 'atomic':
@@ -680,11 +829,32 @@ class Translator:
             return self.E(args[0], cx)
         if nm == 'swap' and len(args) == 2:
             t = self.ctype(self.qt(self.skip(args[0])))
+            if t.cls == 'list':
+                return f'WLIST_SWAP({self.addr_of(args[0], cx)}, {self.addr_of(args[1], cx)})'
             if t.cls == 'sp':
                 return f'SP_SWAP({self.addr_of(args[0], cx)}, {self.addr_of(args[1], cx)})'
             if t.cls == 'record' and rd is not None and self.byid.get(rd['id']) is not None and self.has_body(self.byid[rd['id']]):
                 return self.call_function(self.byid[rd['id']], None, args, cx)
             raise Unsupported(f'swap of {t} in {cx.cname}')
+        if nm == 'get' and len(args) == 1:
+            ct = self.skip(n['inner'][0]).get('type', {}).get('qualType', '')
+            m = re.search(r'tuple_element<(\d+)', ct)
+            at = self.ctype(self.qt(self.skip(args[0])))
+            idx = m.group(1) if m else None
+            if idx is None:
+                if self.cfg.get('tuple_arity', {}).get(at.c, 1) != 1: raise Unsupported(f'std::get index unknown in {cx.cname}')
+                idx = '0'
+            return f'({self.E(args[0], cx)}).a{idx}'
+        if nm == 'swap' and len(args) == 2 and self.ctype(self.qt(self.skip(args[0]))).cls == 'list':
+            return f'WLIST_SWAP({self.addr_of(args[0], cx)}, {self.addr_of(args[1], cx)})'
+        c0 = self.skip(n['inner'][0])
+        def is_fnptr(x):
+            try: return self.ctype(self.qt(x)).cls == 'fnptr'
+            except Unsupported: return False
+        if c0.get('kind') in ('MemberExpr', 'DeclRefExpr') and is_fnptr(c0):
+            return f'FNPTR_CALL({self.E(n["inner"][0], cx)}, {", ".join(self.E(x, cx) for x in args)})'
+        if nm == '__assert_fail':
+            return 'SRC_ASSERT_FAIL()'
         if nm == 'make_shared':
             rt = self.ctype(self.qt(n))
             return self.make_shared(rt, args, n, cx)
@@ -696,10 +866,16 @@ class Translator:
         if nm in self.cfg.get('env_calls', {}):
             # environment (policy) function that is outside the dump: opaque stub, arguments by address
             cn = self.cfg['env_calls'][nm]
-            a = [self.addr_of(x, cx) for x in args]
+            a = []; ps = []
+            for i, x in enumerate(args):
+                sx = self.skip(x); tx = self.ctype(self.qt(sx))
+                if sx.get('valueCategory') == 'prvalue' and self.is_move_call(x) is None:
+                    a.append(self.E(x, cx)); ps.append(f'{tx.c} a{i}')
+                else:
+                    a.append(self.addr_of(x, cx)); ps.append(f'{tx.c} *a{i}')
             rt = self.ctype(self.qt(n))
             if cn not in self.externs:
-                ps = [f'{self.ctype(self.qt(self.skip(x))).c} *a{i}' for i, x in enumerate(args)] + self.ghost_decls()
+                ps = ps + self.ghost_decls()
                 self.externs[cn] = f'{rt.c} {cn}({", ".join(ps) or "void"})'
             return f'{cn}({", ".join(a + self.ghost_args())})'
         raise Unsupported(f'call to {nm} in {cx.cname}')
@@ -746,13 +922,37 @@ class Translator:
                 mv = self.is_move_call(args[0])
                 if mv is not None: return f'CALLBACK_MOVE({self.addr_of(mv, cx)})'
                 return f'CALLBACK_COPY({self.addr_of(args[0], cx)})'
-        if t.cls == 'record' and len(args) == 1 and t.c in self.cfg.get('value_records', []):
+        if t.cls == 'record' and len(args) == 1 and t.c in self.cfg.get('value_records', []) and self.same_record(args[0], t):
             mv = self.is_move_call(args[0])
             if mv is not None: return f'{t.c}_MOVE({self.addr_of(mv, cx)})'
             return f'{t.c}_COPY({self.addr_of(args[0], cx)})'
         if t.cls in ('builtin',) and len(args) == 1:
             return self.E(args[0], cx)
+        if t.cls == 'listit' and len(args) == 1:
+            return self.E(args[0], cx)
+        if t.cls == 'empty':
+            return '0'
+        if t.cls == 'record' and t.c in self.cfg.get('value_records', []) and not args:
+            return f'{t.c}_DEFAULT()'
+        if t.cls == 'record' and t.c in self.cfg.get('value_records', []) and t.c in self.cfg.get('tuple_ctor', []):
+            # std::tuple<T...>(args...): element-wise construction, in order
+            parts = []
+            for i, x in enumerate(args):
+                et = self.ctype(self.qt(self.skip(x)))
+                mv = self.is_move_call(x)
+                if et.cls == 'record' and et.c in self.cfg.get('value_records', []):
+                    parts.append(f'.a{i} = ' + (f'{et.c}_MOVE({self.addr_of(mv, cx)})' if mv is not None else f'{et.c}_COPY({self.addr_of(x, cx)})'))
+                else:
+                    parts.append(f'.a{i} = {self.E(x, cx)}')
+            return f'({t.c}){{{", ".join(parts)}}}'
         raise Unsupported(f'construction of {t} with {len(args)} args as an expression in {cx.cname}')
+
+    def same_record(self, arg, t):
+        try:
+            at = self.ctype(self.qt(self.skip(arg)))
+        except Unsupported:
+            return False
+        return at.cls == 'record' and at.c == t.c
 
     def E_LambdaExpr(self, n, cx):
         rec = n['inner'][0]
@@ -816,6 +1016,11 @@ class Translator:
             e = self.E(n, cx)
             self.flush_pre(cx)
             cx.emit(self.srcnote(n) + e + ';')
+            if 'WLIST_SPLICE_ONE(' in e:
+                # std::list iterators stay valid across splice; index iterators need the stability rule
+                for vid, (cexpr, t) in cx.vars.items():
+                    if t.cls == 'listit' and not t.ref:
+                        cx.emit(f'WIT_STABLE(&{cexpr});')
             return
         h(n, cx)
 
@@ -859,7 +1064,12 @@ class Translator:
             self.flush_pre(cx)
             cx.emit(f'{lv} = {e};')
             return
-        name = cx.uniq(v['name'])
+        vname = v['name']
+        m = re.match(r'^__(range|begin|end)\d+$', vname)
+        if m:
+            # compiler-generated names of a range-for: numbered by nesting in clang, renamed by loop ordinal here
+            vname = f'__{m.group(1)}_L{max(cx.loopn - 1, 0)}'
+        name = cx.uniq(vname)
         init = v['inner'][0] if v.get('inner') else None
         if t.cls == 'lock_guard':
             s = self.skip(init)
@@ -868,6 +1078,23 @@ class Translator:
             m = self.addr_of(s['inner'][0], cx)
             cx.emit(f'MUTEX_LOCK({m});')
             cx.scopes[-1].append(f'MUTEX_UNLOCK({m});')
+            return
+        if t.cls == 'unique_lock':
+            s = self.skip(init)
+            if s.get('kind') != 'CXXConstructExpr' or len(s.get('inner', [])) != 1:
+                raise Unsupported(f'unique_lock construction shape in {cx.cname}')
+            m = self.addr_of(s['inner'][0], cx)
+            cx.emit(f'MUTEX_LOCK({m});')
+            cx.scopes[-1].append(f'MUTEX_UNLOCK({m});')
+            cx.vars[v['id']] = (m, t)
+            return
+        if t.cls == 'list' and not t.ref:
+            s = self.skip(init) if init else None
+            if s is not None and (s.get('kind') != 'CXXConstructExpr' or s.get('inner')):
+                raise Unsupported(f'list variable {name} is not default-constructed in {cx.cname}')
+            cx.emit(f'{t.c} {name};'); cx.emit(f'WLIST_INIT(&{name});')
+            cx.scopes[-1].append(f'WLIST_DTOR(&{name});')
+            cx.vars[v['id']] = (name, t)
             return
         if t.ref:
             cx.emit(f'{t.c} *{name} = {self.addr_of(init, cx)};')
@@ -987,6 +1214,28 @@ class Translator:
         cx.emit(f'LOOP_CONTRACT({key})')
         cx.loop_depth_scopes.append(len(cx.scopes))
         self.S_block(body, cx)
+        cx.loop_depth_scopes.pop()
+        cl = cx.scopes.pop()
+        for s_ in reversed(cl): cx.emit(s_)
+        cx.ind -= 1; cx.emit('}')
+
+    def S_CXXForRangeStmt(self, n, cx):
+        init, rng, beg, end, cond, inc, loopvar, body = n['inner']
+        if init.get('kind'): raise Unsupported(f'range-for with init statement in {cx.cname}')
+        key, k = self.loop_key(cx)
+        cx.emit('{'); cx.ind += 1; cx.scopes.append([])
+        for d in (rng, beg, end): self.S(d, cx)
+        c = self.E(cond, cx); i = self.E(inc, cx)
+        if cx.pre: raise Unsupported(f'range-for header needs hoisting in {cx.cname}')
+        cx.emit(f'for (; {c}; {i})')
+        cx.emit(f'LOOP_CONTRACT({key})')
+        cx.loop_depth_scopes.append(len(cx.scopes))
+        cx.emit('{'); cx.ind += 1; cx.scopes.append([])
+        self.S(loopvar, cx)
+        self.S(body, cx)
+        cl = cx.scopes.pop()
+        for s_ in reversed(cl): cx.emit(s_)
+        cx.ind -= 1; cx.emit('}')
         cx.loop_depth_scopes.pop()
         cl = cx.scopes.pop()
         for s_ in reversed(cl): cx.emit(s_)
@@ -1155,6 +1404,7 @@ class Translator:
         params = [selfp] if selfp else []
         for p in self.params_of(decl):
             t = self.ctype(self.qt(p))
+            if t.cls == 'empty': continue
             nm = cx.uniq(p.get('name') or cx.tmp('p'))
             params.append(t.decl(nm))
             cx.vars[p['id']] = ((f'(*{nm})' if t.ref else nm), t)
@@ -1208,7 +1458,18 @@ class Translator:
             if 'baseInit' in ci:
                 bt = self.ctype(ci['baseInit'].get('desugaredQualType') or ci['baseInit']['qualType'])
                 ce = self.skip(ci['inner'][0])
-                if bt.cls == 'record':
+                if bt.cls == 'record' and bt.c not in [self.cnames.get(q) for q in self.records]:
+                    # opaque base class: constructor is an environment stub
+                    cargs = ce.get('inner', [])
+                    kind = 'ctor'
+                    if len(cargs) == 1:
+                        kind = 'ctor_move' if self.is_move_call(cargs[0]) is not None else 'ctor_copy'
+                    a = [f'&self->base_{bt.c}'] + [self.addr_of(x, cx) for x in cargs]
+                    cn_ = f'{bt.c}_{kind}'
+                    if cn_ not in self.externs:
+                        self.externs[cn_] = f'void {cn_}({", ".join([bt.c + " *self"] + [bt.c + " *a%d" % i for i in range(len(cargs))] + self.ghost_decls())})'
+                    out.append(f'{cn_}({", ".join(a + self.ghost_args())});')
+                elif bt.cls == 'record':
                     ctor = self.find_ctor(bt, ce); self.enqueue(ctor)
                     a = [f'&self->base_{bt.c}'] + self.pass_args(self.params_of(ctor), ce.get('inner', []), cx) + self.ghost_args()
                     out.append(f'{self.func_cname(ctor)}({", ".join(a)});')
@@ -1224,8 +1485,10 @@ class Translator:
                 if t.cls == 'sp': out.append(f'self->{nm} = NULL;')
                 elif t.cls == 'wp': out.append(f'self->{nm} = ({t.c}){{NULL}};')
                 elif t.cls == 'mutex': out.append(f'MUTEX_INIT(&self->{nm});')
-                elif t.cls in ('builtin', 'atomic', 'ptr', 'enum'):
+                elif t.cls in ('builtin', 'atomic', 'ptr', 'enum', 'fnptr', 'rawbuf'):
                     out.append(f'/* {nm}: no initialiser -> indeterminate (left nondeterministic) */')
+                elif t.cls == 'list': out.append(f'WLIST_INIT(&self->{nm});')
+                elif t.cls == 'condvar': out.append(f'CONDVAR_INIT(&self->{nm});')
                 else: raise Unsupported(f'default-initialisation of field {nm} : {t} in {cx.cname}')
                 continue
             e = ci['inner'][0]; s = self.skip(e)
@@ -1233,6 +1496,13 @@ class Translator:
                 out.append(f'self->{nm} = {self.addr_of(e, cx)};'); continue
             if t.cls == 'mutex':
                 out.append(f'MUTEX_INIT(&self->{nm});'); continue
+            if t.cls == 'list':
+                if s.get('kind') == 'CXXConstructExpr' and not s.get('inner'): out.append(f'WLIST_INIT(&self->{nm});'); continue
+                raise Unsupported(f'list member {nm} is not default-constructed in {cx.cname}')
+            if t.cls == 'condvar':
+                out.append(f'CONDVAR_INIT(&self->{nm});'); continue
+            if t.cls == 'rawbuf':
+                out.append(f'/* {nm}: raw storage, value-initialised bytes carry no object */'); continue
             if t.cls == 'atomic':
                 if s.get('kind') == 'CXXConstructExpr':
                     if s.get('inner'): out.append(f'ATOMIC_INIT(&self->{nm}, {self.E(s["inner"][0], cx)});')
@@ -1261,14 +1531,23 @@ class Translator:
                     self.enqueue(dt); fn_ = f['name']; out.append(f'{self.func_cname(dt)}({", ".join(["&self->" + fn_] + self.ghost_args())});')
             elif t.cls == 'sp' and not t.ref:
                 out.append(f'SP_RELEASE(&self->{f["name"]});')
+            elif t.cls == 'list' and not t.ref:
+                out.append(f'WLIST_DTOR(&self->{f["name"]});')
         return out
 
     # ------------------------------------------------------------------ driver
-    def run(self, roots):
+    def run(self, roots, survey=False):
         for d in roots: self.enqueue(d)
+        self.errors = []
         while self.queue:
             d = self.queue.pop(0)
-            self.emit_function(d)
+            if survey:
+                try:
+                    self.emit_function(d)
+                except Unsupported as e:
+                    self.errors.append(f'{d.get("name")}: {e}')
+            else:
+                self.emit_function(d)
 
     def output(self, header_includes):
         o = []
